@@ -22,31 +22,34 @@ type resultOfUse struct {
 func (c *Ctx) resultOfUses(fn *ssa.Function) []resultOfUse {
 	P := c.P
 	var out []resultOfUse
-	allInstrs(fn, func(b *ssa.BasicBlock, ins ssa.Instruction) {
-		lk, ok := ins.(*ssa.Lookup)
-		if !ok {
-			return
-		}
-		if !P.isPassField(lk.X, "ResultOf") {
-			return
-		}
-		u := resultOfUse{Lookup: lk}
-		for _, r := range P.Resolve(lk.Index) {
-			if lo, ok := r.(*ssa.UnOp); ok {
-				if g, ok := lo.X.(*ssa.Global); ok {
-					u.Var, _ = g.Object().(*types.Var)
+	// the Run function and everything it calls statically (accessor helpers such as configOf(pass) included)
+	for _, f := range P.StaticClosure(fn) {
+		allInstrs(f, func(b *ssa.BasicBlock, ins ssa.Instruction) {
+			lk, ok := ins.(*ssa.Lookup)
+			if !ok {
+				return
+			}
+			if !P.isPassField(lk.X, "ResultOf") {
+				return
+			}
+			u := resultOfUse{Lookup: lk}
+			for _, r := range P.Resolve(lk.Index) {
+				if lo, ok := r.(*ssa.UnOp); ok {
+					if g, ok := lo.X.(*ssa.Global); ok {
+						u.Var, _ = g.Object().(*types.Var)
+					}
 				}
 			}
-		}
-		if refs := lk.Referrers(); refs != nil {
-			for _, r := range *refs {
-				if ta, ok := r.(*ssa.TypeAssert); ok {
-					u.Assert = ta
+			if refs := lk.Referrers(); refs != nil {
+				for _, r := range *refs {
+					if ta, ok := r.(*ssa.TypeAssert); ok {
+						u.Assert = ta
+					}
 				}
 			}
-		}
-		out = append(out, u)
-	})
+			out = append(out, u)
+		})
+	}
 	return out
 }
 
@@ -191,7 +194,8 @@ func (c *Ctx) ruleFactExport() {
 				if dominates(ex.Block(), b) {
 					return
 				}
-				dead := P.BlockCutBy(b, func(l Lit) bool {
+				// every path to this return passes the export or takes a dead branch
+				dead := P.BlockCutByOrVia(b, func(l Lit) bool {
 					if nilCheck(l) && l.Pos {
 						return true
 					}
@@ -199,7 +203,7 @@ func (c *Ctx) ruleFactExport() {
 						return true
 					}
 					return false
-				})
+				}, ex.Block())
 				c.check(dead, "FACT-EXPORT/BEFORE-RETURN", a.VarName, P.Pos(r.Pos()), "early return only for an absent/ill-typed reader result (excluded by REQ-RESULT)", "Run can return before the fact is exported")
 			})
 		}
